@@ -138,6 +138,20 @@ Example C05_any_data_example :
   end.
 Proof. exact f_id_roundtrip. Qed.
 
+(* 7. KNOWN FINDING D51.  The clause of [opts_ok] "no entry key is a short name of the key_map" is necessary:
+      the reader renames every key that equals a short name, also one the mapper wrote itself (a mapper
+      storing "s" under Tree's default key_map {"str": "s"}: FileSystemTree's own mapper does, which is why
+      that class sets DEFAULT_KEY_MAP = {}).  The statement without the clause is false. *)
+Definition C05_roundtrip_without_short_name_clause : Prop := roundtrip_without_short_name_clause.
+Theorem C05_roundtrip_without_short_name_clause_refuted : ~ C05_roundtrip_without_short_name_clause.
+Proof. exact roundtrip_without_short_name_clause_refuted. Qed.
+Print Assumptions C05_roundtrip_without_short_name_clause_refuted.
+
+Theorem C05_D51_witness :
+  exists j, save_doc CPlain sser KTrue VTrue [] f_s = Ok j /\ load_doc CPlain sdeser whash j = Err EKey.
+Proof. exact d51_witness. Qed.
+Print Assumptions C05_D51_witness.
+
 (* ---- non-vacuity: all hypotheses of C05_roundtrip / C05_option_independent hold on f_ty (typed, a clone
    of another kind, value-hashed data) with default and with custom maps, and on f_ex *)
 Example C05_hypotheses_satisfiable :
